@@ -22,7 +22,7 @@ func TestSweep(t *testing.T) {
 				for a := 0; a <= K; a++ {
 					for b := a; b <= K; b++ {
 						for ch := 0; ch < C; ch++ {
-							Oracle.One(t, env, rec, "sweep", &Case{T: tn, C: C, Kr: K, A: a, B: b, Ch: ch})
+							Oracle.One(t, env, rec, "sweep", &Case{T: tn, C: C, Kr: K, A: a, B: b, Ch: ch, Fix: (a + ch) % 3})
 						}
 					}
 				}
